@@ -145,4 +145,192 @@ fn u11_unpack_arbitrary<const N: usize>() {
 		assert!(d.len() + 8 * ch.len() + 1 == N, "U11.unpack_data.partitions_the_bytes");
 	}
 }
+
+// ================================================================== U8-dispatch: Column::write_existing_value_plan
+// The value-table operations it calls are replaced by their contracts (recorders that also assert the callee's
+// precondition); those contracts are the ones checked on the real functions by U6 / U8 / U14.
+pub(crate) static mut DC_N: usize = 0;
+pub(crate) static mut DC_KIND: [u8; 4] = [0; 4]; // 1 replace, 2 remove, 3 insert, 4 inc_ref, 5 dec_ref
+pub(crate) static mut DC_TABLE: [u16; 4] = [0; 4];
+pub(crate) static mut DC_INDEX: [u64; 4] = [0; 4];
+pub(crate) static mut DC_LEN: [usize; 4] = [0; 4];
+pub(crate) static mut DC_FLAG: [bool; 4] = [false; 4];
+pub(crate) static mut DC_NEW_OFFSET: u64 = 0;
+pub(crate) static mut DC_DEC_ALIVE: bool = false;
+fn dc_push(kind: u8, t: &ValueTable, index: u64, len: usize, flag: bool) {
+	unsafe {
+		assert!(DC_N < 4, "verif: too many table operations");
+		DC_KIND[DC_N] = kind;
+		DC_TABLE[DC_N] = t.id.as_u16();
+		DC_INDEX[DC_N] = index;
+		DC_LEN[DC_N] = len;
+		DC_FLAG[DC_N] = flag;
+		DC_N += 1;
+	}
+}
+// precondition shared by the chain writers (U6): the value fits a fixed table (the exec `assert!` of overwrite_chain);
+// a value stored in the chained-storage table must need more than one part, because a head there is only readable
+// if it carries the MULTIHEAD marker (for_parts, U6.R)
+fn dc_writer_pre(t: &ValueTable, key: &TableKey, value: &[u8]) {
+	let cap = t.value_size(key);
+	if t.entry_size == 4096 && t.id.size_tier() == 255 {
+		assert!(cap.map_or(true, |c| value.len() > c as usize), "U8d.callee_pre.blob_table_values_are_multipart");
+	} else {
+		assert!(cap.map_or(false, |c| value.len() <= c as usize), "U8d.callee_pre.value_fits_fixed_table");
+	}
+}
+pub(crate) fn stub_replace(t: &ValueTable, index: u64, key: &TableKey, value: &[u8], _log: &mut LogWriter, compressed: bool) -> Result<()>
+{
+	dc_writer_pre(t, key, value);
+	dc_push(1, t, index, value.len(), compressed);
+	Ok(())
+}
+pub(crate) fn stub_remove(t: &ValueTable, index: u64, _log: &mut LogWriter) -> Result<()>
+{
+	dc_push(2, t, index, 0, false);
+	Ok(())
+}
+pub(crate) fn stub_insert(t: &ValueTable, key: &TableKey, value: &[u8], _log: &mut LogWriter, compressed: bool) -> Result<u64>
+{
+	dc_writer_pre(t, key, value);
+	dc_push(3, t, 0, value.len(), compressed);
+	Ok(unsafe { DC_NEW_OFFSET })
+}
+pub(crate) fn stub_inc_ref(t: &ValueTable, index: u64, _log: &mut LogWriter) -> Result<()>
+{
+	dc_push(4, t, index, 0, false);
+	Ok(())
+}
+pub(crate) fn stub_dec_ref(t: &ValueTable, index: u64, _log: &mut LogWriter) -> Result<bool>
+{
+	dc_push(5, t, index, 0, false);
+	Ok(unsafe { DC_DEC_ALIVE })
+}
+macro_rules! dispatch_harness {
+	($(#[$m:meta])* $name:ident, $body:expr) => {
+		#[kani::proof]
+		$(#[$m])*
+		#[kani::stub(crate::table::ValueTable::write_replace_plan, stub_replace)]
+		#[kani::stub(crate::table::ValueTable::write_remove_plan, stub_remove)]
+		#[kani::stub(crate::table::ValueTable::write_insert_plan, stub_insert)]
+		#[kani::stub(crate::table::ValueTable::write_inc_ref, stub_inc_ref)]
+		#[kani::stub(crate::table::ValueTable::write_dec_ref, stub_dec_ref)]
+		#[kani::stub(std::hash::RandomState::new, crate::verif_stubs::random_state_new)]
+		#[kani::stub(parking_lot::RawRwLock::lock_shared_slow, crate::verif_stubs::lock_shared_slow)]
+		#[kani::stub(parking_lot::RawRwLock::unlock_shared_slow, crate::verif_stubs::unlock_shared_slow)]
+		#[kani::stub(parking_lot::RawRwLock::lock_exclusive_slow, crate::verif_stubs::lock_exclusive_slow)]
+		#[kani::stub(parking_lot::RawRwLock::unlock_exclusive_slow, crate::verif_stubs::unlock_exclusive_slow)]
+		#[kani::stub(std::fmt::format, crate::verif_stubs::fmt_format)]
+		fn $name() {
+			$body
+		}
+	};
+}
+// op: 0 Set, 1 Reference, 2 Dereference
+fn u8_dispatch(op: u8, ref_counted: bool, preimage: bool) {
+	// three fixed tiers with arbitrary increasing sizes, the last at least one chained part wide (as SIZES[254] = 32760 is), + the blob table
+	let s0: u16 = kani::any();
+	let s1: u16 = kani::any();
+	let s2: u16 = kani::any();
+	kani::assume(s0 >= 32 && s0 < s1 && s1 < s2 && s2 >= 4096 && s2 <= 0x7ff8);
+	let tables = [
+		crate::table::verif_table::mk_table_tier(s0, false, ref_counted, 0),
+		crate::table::verif_table::mk_table_tier(s1, false, ref_counted, 1),
+		crate::table::verif_table::mk_table_tier(s2, false, ref_counted, 2),
+		crate::table::verif_table::mk_table_tier(4096, true, ref_counted, 255),
+	];
+	let no = crate::compress::Compress::new(crate::compress::CompressionType::NoCompression, u32::MAX);
+	let tr = TablesRef { tables: &tables, compression: &no, col: 0, preimage, ref_counted };
+	let key = TableKey::Partial(kani::any());
+	let tier: u8 = kani::any();
+	kani::assume(tier < 4);
+	let offset: u64 = kani::any();
+	kani::assume(offset < (1u64 << 40));
+	let address = Address::new(offset, tier);
+	let len: usize = kani::any();
+	kani::assume(len <= 0x10000);
+	let buf = [0u8; 0x10000];
+	let value: &[u8] = &buf[..len];
+	let change: Operation<u8, &[u8]> = match op {
+		0 => Operation::Set(0, value),
+		1 => Operation::Reference(0),
+		_ => Operation::Dereference(0),
+	};
+	let overlays = crate::parking_lot::RwLock::new(crate::log::LogOverlays::with_columns(0));
+	let mut w = crate::log::LogWriter::new(&overlays, 7);
+	unsafe {
+		DC_N = 0;
+		DC_NEW_OFFSET = kani::any();
+		DC_DEC_ALIVE = kani::any();
+	}
+	kani::assume(unsafe { DC_NEW_OFFSET } < (1u64 << 40));
+	let r = ok(Column::write_existing_value_plan(&key, tr, address, &change, &mut w, None, ref_counted));
+	let n = unsafe { DC_N };
+	let tid = |i: usize| -> u16 { tables[i].id.as_u16() };
+	let hdr = 2 + if ref_counted { 4 } else { 0 } + 26;
+	let fits = |s: u16| -> bool { s as usize >= hdr && len <= s as usize - hdr };
+	let target: usize = if fits(s0) { 0 } else if fits(s1) { 1 } else if fits(s2) { 2 } else { 3 };
+	match r {
+		None => assert!(false, "U8d.no_error_for_key_value_operations"),
+		Some((outcome, new_addr)) => {
+			if op == 1 {
+				// Reference: +1 on a counting column, ignored otherwise; the value is never rewritten
+				if ref_counted {
+					assert!(n == 1 && unsafe { DC_KIND[0] } == 4 && unsafe { DC_TABLE[0] } == tid(tier as usize) && unsafe { DC_INDEX[0] } == offset, "U8d.reference.increments_in_place");
+					assert!(matches!(outcome, Some(PlanOutcome::Written)) && new_addr.is_none(), "U8d.reference.outcome");
+				} else {
+					assert!(n == 0 && matches!(outcome, Some(PlanOutcome::Skipped)) && new_addr.is_none(), "U8d.reference.ignored_without_counting");
+				}
+			} else if op == 0 && ref_counted {
+				// Set on an existing key of a counting column is an increment; the stored value is untouched
+				assert!(n == 1 && unsafe { DC_KIND[0] } == 4 && unsafe { DC_TABLE[0] } == tid(tier as usize) && unsafe { DC_INDEX[0] } == offset, "U8d.set_rc.is_increment_value_untouched");
+				assert!(matches!(outcome, Some(PlanOutcome::Written)) && new_addr.is_none(), "U8d.set_rc.outcome");
+			} else if op == 0 && preimage {
+				assert!(n == 0 && matches!(outcome, Some(PlanOutcome::Skipped)) && new_addr.is_none(), "U8d.set_preimage.skipped");
+			} else if op == 0 {
+				// Set: the new value ends up in the tier `compress` selects for it: in place if that is the current tier,
+				// otherwise the old entry is released and a new one inserted, and the new address is reported
+				if tier as usize == target {
+					assert!(n == 1 && unsafe { DC_KIND[0] } == 1 && unsafe { DC_TABLE[0] } == tid(target) && unsafe { DC_INDEX[0] } == offset && unsafe { DC_LEN[0] } == len, "U8d.set.same_tier_replaces_in_place");
+					assert!(matches!(outcome, Some(PlanOutcome::Written)) && new_addr.is_none(), "U8d.set.same_tier_outcome");
+				} else {
+					assert!(n == 2 && unsafe { DC_KIND[0] } == 2 && unsafe { DC_TABLE[0] } == tid(tier as usize) && unsafe { DC_INDEX[0] } == offset, "U8d.set.other_tier_releases_old_entry");
+					assert!(unsafe { DC_KIND[1] } == 3 && unsafe { DC_TABLE[1] } == tid(target) && unsafe { DC_LEN[1] } == len, "U8d.set.other_tier_inserts_into_selected_tier");
+					assert!(outcome.is_none(), "U8d.set.other_tier_outcome");
+					match new_addr {
+						Some(a) => assert!(a.size_tier() as usize == if target == 3 { 255 } else { target } || a.size_tier() as usize == target, "U8d.set.new_address_names_selected_tier"),
+						None => assert!(false, "U8d.set.new_address_reported"),
+					}
+					if let Some(a) = new_addr {
+						assert!(a.offset() == unsafe { DC_NEW_OFFSET }, "U8d.set.new_address_names_inserted_slot");
+					}
+				}
+			} else {
+				// Dereference
+				if ref_counted {
+					assert!(n == 1 && unsafe { DC_KIND[0] } == 5 && unsafe { DC_TABLE[0] } == tid(tier as usize) && unsafe { DC_INDEX[0] } == offset, "U8d.dereference_rc.decrements_in_place");
+					if unsafe { DC_DEC_ALIVE } {
+						assert!(matches!(outcome, Some(PlanOutcome::Written)) && new_addr.is_none(), "U8d.dereference_rc.alive_keeps_index_entry");
+					} else {
+						assert!(outcome.is_none() && new_addr.is_none(), "U8d.dereference_rc.zero_reports_removal");
+					}
+				} else {
+					assert!(n == 1 && unsafe { DC_KIND[0] } == 2 && unsafe { DC_TABLE[0] } == tid(tier as usize) && unsafe { DC_INDEX[0] } == offset, "U8d.dereference.removes_entry");
+					assert!(outcome.is_none() && new_addr.is_none(), "U8d.dereference.reports_removal");
+				}
+			}
+		},
+	}
+	kani::cover!(op == 0 && !ref_counted && !preimage && tier as usize != target, "opt: set moves tier");
+	kani::cover!(op == 0 && !ref_counted && !preimage && tier as usize == target, "opt: set in place");
+	std::mem::forget(tables);
+}
+dispatch_harness!(#[kani::unwind(6)] u8d_set_plain, u8_dispatch(0, false, false));
+dispatch_harness!(#[kani::unwind(6)] u8d_set_rc, u8_dispatch(0, true, false));
+dispatch_harness!(#[kani::unwind(6)] u8d_set_preimage, u8_dispatch(0, false, true));
+dispatch_harness!(#[kani::unwind(6)] u8d_reference_rc, u8_dispatch(1, true, false));
+dispatch_harness!(#[kani::unwind(6)] u8d_reference_plain, u8_dispatch(1, false, false));
+dispatch_harness!(#[kani::unwind(6)] u8d_dereference_rc, u8_dispatch(2, true, false));
+dispatch_harness!(#[kani::unwind(6)] u8d_dereference_plain, u8_dispatch(2, false, false));
+
 /*@@GENERATED:column@@*/
